@@ -417,6 +417,11 @@ fn main() {
                 let t = fd_table(ctl.fd);
                 ctl.send(&format!("fds {}", t));
             }
+            "setsid" => {
+                // leave the job's process group and the session (like a daemonising program)
+                let r = unsafe { libc::setsid() };
+                ctl.send(&format!("setsid {} {}", r, if r < 0 { errno() } else { 0 }));
+            }
             "pgrp" => {
                 let (g, t) = unsafe { (libc::getpgrp(), libc::tcgetpgrp(0)) };
                 ctl.send(&format!("pgrp {} {}", g, t));
